@@ -183,7 +183,15 @@ class LibMixin:
             return OpaqueV("future")
         elif n == "_typeshed":
             return OpaqueV(f"_typeshed.{attr}")
-        elif n in ("hypothesis", "hypothesis.strategies", "pydantic"):
+        elif n == "pydantic":
+            if attr == "BaseModel":
+                return L("pydantic.BaseModel")
+            if attr == "ValidationError":
+                return LibClass.get("pydantic.ValidationError", (L("ValueError"),))
+            if attr in ("root_validator", "validator"):
+                return F("pydantic.validator")
+            return OpaqueV(f"pydantic.{attr}")
+        elif n in ("hypothesis", "hypothesis.strategies"):
             raise Raised(InstV(L("ImportError"), {"args": (f"{n} is modelled as not installed",)}))
         # unknown attribute of a library module: a sub-module or something opaque
         if n in ("collections", "os", "sys", "pathlib", "re", "json", "textwrap", "importlib", "hypothesis"):
@@ -430,6 +438,8 @@ class LibMixin:
             return tuple(c.bases)
         if name == "__module__":
             return n.rpartition(".")[0] or "builtins"
+        if n == "pydantic.BaseModel" and name in ("update_forward_refs", "parse_obj", "parse_file", "construct"):
+            return F("noop") if name == "update_forward_refs" else OpaqueV(f"pydantic.BaseModel.{name}")
         if name in ("__init_subclass__",):
             return F("object.__init_subclass__")
         if name in ("__new__",):
@@ -818,6 +828,13 @@ class LibMixin:
 
     def lib_identity(self, a, kw, run, node):
         return a[0]
+
+    def lib_pydantic_validator(self, a, kw, run, node):
+        # @root_validator / @root_validator(pre=True) / @validator("field", ...): validators do not change
+        # the decorated function as far as this analysis is concerned
+        if len(a) == 1 and isinstance(a[0], (FuncV, WrapV)) and not kw:
+            return a[0]
+        return LibFn.get("identity")
 
     def lib_contextlib_closing(self, a, kw, run, node):
         return CtxMgrV("closing", a[0])
